@@ -69,8 +69,8 @@ AXKINDS = ["diag", "negdiag", "rot", "skew"]
 TOL_LAYOUT = 1e-13
 TOL_W = 1e-14
 TOL_SEP = 1e-11
-TOL_CUBIC = 1e-9
-TOL_LOG = 1e-9
+TOL_CUBIC = 1e-8
+TOL_LOG = 1e-8
 TOL_LIN = 1e-11
 
 _SEEN = {}
@@ -86,32 +86,32 @@ def cases(tier, seed):
         out.append(("pinned", {"what": what}, 1e9))
     for dim in (2, 3):
         for kind in AXKINDS:
-            for k in range(6 if q else 60):
+            for k in range(10 if q else 400):
                 out.append(("uniform-layout", {"dim": dim, "axes": kind, "k": k, "big": (not q) and k % 10 == 9}, 3.0 if q else 6.0))
-        for k in range(10 if q else 100):
+        for k in range(16 if q else 600):
             out.append(("tensor-layout", {"dim": dim, "k": k}, 2.0))
         # deterministic cross product: schemes x dims x axis kinds (x structured shape list inside the case)
         for scheme in SCHEMES:
             for kind in AXKINDS:
                 out.append(("weight-schemes", {"scheme": scheme, "dim": dim, "axes": kind}, 4.0))
-                for k in range(1 if q else 8):
+                for k in range(1 if q else 40):
                     out.append(("weight-schemes", {"scheme": scheme, "dim": dim, "axes": kind, "k": k}, 2.0))
         for kind in ("pos", "neg", "mixed"):
-            for k in range(3 if q else 30):
+            for k in range(5 if q else 250):
                 out.append(("closest-point", {"dim": dim, "signs": kind, "k": k}, 2.0))
     for kind in ("single", "centro", "centro-principal", "asym", "asym-heavy-end"):
         for rotate in (False, True):
-            for k in range(3 if q else 30):
+            for k in range(5 if q else 250):
                 out.append(("from-molecule", {"kind": kind, "rotate": rotate, "k": k}, 5.0))
     for kind in AXKINDS:
-        for k in range(3 if q else 30):
+        for k in range(5 if q else 250):
             out.append(("cube-roundtrip", {"axes": kind, "k": k}, 3.0))
     for gk in ("uniform", "tensor"):
-        for k in range(12 if q else 100):
-            out.append(("interp-cubic", {"grid": gk, "k": k, "all_nu": not q}, 8.0 if q else 50.0))
-        for k in range(4 if q else 30):
+        for k in range(16 if q else 500):
+            out.append(("interp-cubic", {"grid": gk, "k": k, "all_nu": not q, "big": (not q) and k % 5 == 4}, 8.0 if q else 50.0))
+        for k in range(5 if q else 200):
             out.append(("interp-log", {"grid": gk, "k": k}, 10.0))
-        for k in range(6 if q else 50):
+        for k in range(8 if q else 400):
             out.append(("interp-linear", {"grid": gk, "k": k}, 2.0))
     return out
 
@@ -538,7 +538,14 @@ def _uniform_layout(ctx, p):
             want = origin + sum(c[k] * axes[k] for k in range(dim))
             worst = max(worst, float(np.abs(g.points[int(g.coordinates_to_index(c))] - want).max()) / scale)
         ctx.check("layout-lexicographic", subj + ":points[coordinates_to_index(c)]", worst, TOL_LAYOUT, sig="point(i,j,k)!=origin+i*a1+j*a2+k*a3")
-    if _axes_class(axes) in ("diag", "negdiag"):
+    if _axes_class(axes) not in ("diag", "negdiag"):
+        # documented rejection (not decided): closest_point only supports diagonal axes
+        try:
+            g.closest_point(g.points[g.size // 2] + 0.1 * axes[0])
+            ctx.count("closest_point:non-diagonal-axes-accepted")
+        except ValueError:
+            ctx.count("closest_point:non-diagonal-axes-rejected-with-ValueError")
+    else:
         with ctx.guard("points-along-axes", subj):
             got = g.get_points_along_axes()
             ok = len(got) == dim
@@ -684,7 +691,7 @@ def _from_molecule(ctx, p):
     span = np.ptp(coords, axis=0).max() + 2 * ext + 1.0
     smin = span / 55.0  # keep the grid below ~170 000 points
     spacing = float(max(smin, rng.uniform(0.2, 1.2)))
-    if nums.size < 4:  # possibly linear / planar: keep the requested box at least two planes thick
+    if nums.size < 4 or p["kind"].startswith("centro"):  # possibly linear / planar: keep the requested box at least two planes thick
         ext = max(ext, 1.05 * spacing)
     ctx.case_note("natom", int(nums.size))
     ctx.case_note("spacing_extension", [spacing, ext])
@@ -848,7 +855,7 @@ def _register(values, **kw):
 def _interp_cubic(ctx, p, negative=False):
     rng = ctx.rng
     negative = negative or (p["grid"] == "uniform" and p.get("k", 0) % 4 == 3)
-    g, nodes, h = _interp_grid(ctx, p["grid"], negative=negative)
+    g, nodes, h = _interp_grid(ctx, p["grid"], 7, 14 if p.get("big") else 10, negative=negative)
     c = rng.normal(size=(4, 4, 4)) * rng.choice([1.0, 1.0, 1e-3, 1e3])
     if rng.random() < 0.2:  # sparse polynomial: a single top-degree monomial plus a constant
         c = np.zeros((4, 4, 4))
